@@ -152,6 +152,21 @@ def run(ctx):
     except Skip:
         pass
 
+    # ---- between the collector and the handler the batch is only moved
+    try:
+        aw = ctx.anchor_one("R01.3", "action worker coroutine", [c for c in facts.children(ctx.anchor_fn("R01.3", "watchexec::action::worker::worker")) if c.kind == "coroutine"])
+        touch = []
+        for c, nd in thir.calls_in(thir.root(aw)):
+            if pathx.is_tracing(nd) or not nd["a"]:
+                continue
+            a0 = pathx.desc(nd["a"][0]).lstrip("^")
+            if a0 == "set":
+                touch.append(strip_generics(c).split("::")[-2] + "::" + strip_generics(c).split("::")[-1])
+        ctx.require(touch == ["mem::take"], "R01.3", "batch-only-moved", "the collected set is handed on with mem::take and not otherwise touched", aw.loc(aw.line), detail=str(touch),
+                    fail="the action worker edits the collected batch before handing it to the handler (%s): accepted events are dropped, merged or reordered" % touch)
+    except Skip:
+        pass
+
     # ---- R01.9 shape of filesystem events
     try:
         pe = ctx.anchor_fn("R01.9", "watchexec::sources::fs::process_event")
@@ -231,6 +246,12 @@ def run(ctx):
         sends = [[pathx.desc(a) for a in nd["a"]] for c, nd in thir.calls_in(thir.root(se)) if strip_generics(c).endswith("async_priority_channel::Sender::send")]
         ctx.require(len(sends) == 1 and sends[0][0].lstrip("^") == "self.event_input" and [x.lstrip("^") for x in sends[0][1:]] == ["event", "priority"], "R01.8", "send-event",
                     "send_event() queues the given event at the given priority", se.loc(se.line), detail=str(sends))
+        # (the async desugaring itself moves the parameters in with `let event = event;` - only a binding to something else counts)
+        rebinds = [st["p"].get("n") for st in thir.walk(thir.root(se)) if isinstance(st, dict) and st.get("k") == "let" and st["p"].get("k") == "bind" and st["p"].get("n") in ("event", "priority")
+                   and isinstance(st.get("i"), dict) and pathx.desc(st["i"]).lstrip("^") != st["p"].get("n")]
+        reass = [pathx.desc(a["a"]) for a in thir.find(thir.root(se), "assign") if pathx.desc(a["a"]).lstrip("^") in ("event", "priority")]
+        ctx.require(not rebinds and not reass, "R01.8", "send-event-verbatim", "send_event() does not rewrite the event or its priority", se.loc(se.line), detail=str(rebinds + reass),
+                    fail="Watchexec::send_event re-binds %s before queueing: the event is not queued as given (e.g. its priority is changed, which changes whether it is filtered and debounced)" % (rebinds + reass))
     except Skip:
         pass
 
